@@ -110,14 +110,21 @@ pub fn read_facts_and_rules(file_name: &str) -> Result<Vec<String>, String> {
                     if line.len() > 0 {
                         match check_last_char(&line, line_number) {
                             Some(msg) => { return Err(msg); },
-                            None => { long_line += &line; },
+                            None => {
+                                // Lines are trimmed, so put a space between
+                                // them: `$X =` + `5.` must not become `$X =5.`
+                                if long_line.len() > 0 { long_line += " "; }
+                                long_line += &line;
+                            },
                         }
                         rules.push(line);
                     }
                 }
                 line_number += 1;
             }
-            separate_rules(&long_line)
+            // The space between lines is not part of the next rule.
+            let rules = separate_rules(&long_line)?;
+            Ok(rules.iter().map(|r| r.trim_start().to_string()).collect())
         },
         Err(msg) => {
             // Add file name to error message.
@@ -322,7 +329,7 @@ fn unmatched_bracket(error_line: &str,
         msg2 = "Check start of file.".to_string();
     } else {
         let s = trim_error_line(&chrs);
-        msg2 = "Check: ".to_string() + &s;
+        msg2 = "Check: ".to_string() + s.trim_start();
     }
 
     let msg = format!("{}\n{}", msg, msg2);
